@@ -694,4 +694,47 @@ theorem cascade_refines (root : Val) (names : List Name) : ∀ (n : Nat) (h h' :
           · simp at hset
       · simp at hset
 
+/-- **`get(p, doc)` is `v` afterwards**: after a successful cascade the value sits at the path -/
+theorem cascadeAt_reads_back : ∀ (ns : List Name) (j j' v : J), J.cascadeAt j ns v = some j' → walk J.view j' ns = some v
+  | [], _, _, _, h => by simp [J.cascadeAt] at h
+  | [nm], j, j', v, h => by
+    simp only [J.cascadeAt] at h
+    simp [walk, childAt_setName j j' nm v h]
+  | nm :: nm2 :: rest, j, j', v, h => by
+    rw [cascadeAt_cons_cons] at h
+    cases hc : childAt (J.view j) nm with
+    | none =>
+      simp only [hc] at h
+      cases h1 : J.cascadeAt (emptyFor nm2) (nm2 :: rest) v with
+      | none => simp [h1] at h
+      | some c' =>
+        simp only [h1] at h
+        simp only [walk, childAt_setName j j' nm c' h]
+        exact cascadeAt_reads_back (nm2 :: rest) (emptyFor nm2) c' v h1
+    | some c =>
+      simp only [hc] at h
+      cases h1 : J.cascadeAt c (nm2 :: rest) v with
+      | none => simp [h1] at h
+      | some c' =>
+        simp only [h1] at h
+        simp only [walk, childAt_putChild j j' nm c' h]
+        exact cascadeAt_reads_back (nm2 :: rest) c c' v h1
+
+/-- a newly created dict holds exactly the one entry the path names; a newly created list can
+only be appended to (index 0), and then holds exactly that item -/
+theorem cascade_into_new_container (nm : Name) (v : J) :
+    J.cascadeAt (emptyFor nm) [nm] v =
+      match nm with
+      | .key k => some (.obj [(k, v)])
+      | .idx i => if i = 0 then some (.arr [v]) else none := by
+  cases nm with
+  | key k => simp [J.cascadeAt, emptyFor, J.setName, kvsSet]
+  | idx i =>
+    simp only [J.cascadeAt, emptyFor, J.setName, List.length_nil]
+    have : normIndex 0 i = none := by simp [normIndex]
+    simp only [this]
+    by_cases hi : i = 0
+    · simp [hi]
+    · simp [hi]
+
 end Treepath
